@@ -62,6 +62,12 @@ func freePort() int {
 // StartPool launches `vipnode pool --store=memory` on a free loopback port and waits until it
 // answers vipnode_ping.
 func StartPool(extra ...string) (*PoolProc, error) {
+	return StartPoolArgs(append([]string{"--store=memory"}, extra...)...)
+}
+
+// StartPoolArgs launches `vipnode pool <args> --bind <free loopback port>` and waits until it
+// answers vipnode_ping.
+func StartPoolArgs(poolArgs ...string) (*PoolProc, error) {
 	bin := VipnodeBin()
 	if bin == "" {
 		return nil, fmt.Errorf("VERIF_VIPNODE_BIN not set")
@@ -69,7 +75,7 @@ func StartPool(extra ...string) (*PoolProc, error) {
 	var lastErr error
 	for attempt := 0; attempt < 3; attempt++ {
 		p := &PoolProc{Addr: fmt.Sprintf("127.0.0.1:%d", freePort()), out: &lockedBuf{}, exited: make(chan struct{})}
-		args := append([]string{"pool", "--store=memory", "--bind", p.Addr}, extra...)
+		args := append([]string{"pool", "--bind", p.Addr}, poolArgs...)
 		p.cmd = exec.Command(bin, args...)
 		p.cmd.Stdout, p.cmd.Stderr = p.out, p.out
 		p.cmd.SysProcAttr = &syscall.SysProcAttr{Setpgid: true, Pdeathsig: syscall.SIGKILL}
